@@ -386,7 +386,7 @@ def compare(h, m: Model, handles) -> list[Fail]:
 
 FIELD_NAMES = ["runtime_reqs", "extension_reqs", "extension_delta", "input_extensions", "op", "parent", "signature", "t", "v", "typ", "input", "output", "version", "nodes", "edges", "metadata", "encoder"]
 FIELD_DICTS = st.dictionaries(st.sampled_from(FIELD_NAMES), st.one_of(st.integers(0, 2), st.lists(st.sampled_from(["a", "b"]), max_size=2), st.none()), min_size=1, max_size=2)
-META = st.one_of(st.none(), st.none(), st.dictionaries(st.sampled_from(["k", "name"] + FIELD_NAMES[:4]), FIELD_DICTS, min_size=1, max_size=1), st.dictionaries(st.sampled_from(["k", "name", "ü"]), st.one_of(st.integers(-3, 3), st.text(max_size=3), st.none(), st.lists(st.integers(0, 2), max_size=2), st.booleans(), st.sampled_from([0.0, 1.0, 2.5])), max_size=2))
+META = st.one_of(st.none(), st.none(), st.dictionaries(st.sampled_from(["k", "name"] + FIELD_NAMES[:4]), FIELD_DICTS, min_size=1, max_size=1), st.dictionaries(st.sampled_from(["k", "name", "ü", " k", "k ", "name\n", ""]), st.one_of(st.integers(-3, 3), st.text(max_size=3), st.none(), st.lists(st.integers(0, 2), max_size=2), st.booleans(), st.sampled_from([0.0, 1.0, 2.5])), max_size=2))
 SEL = st.integers(0, 30)
 OFF = st.integers(0, 5)
 
